@@ -7,7 +7,7 @@ mkdir -p /verif/build
 exec 9>/verif/build/repo.lock
 flock -x 9
 cd /repo || exit 2
-if [ -n "$(git status --short)" ]; then echo "/repo is not clean; refusing"; exit 2; fi
+if [ -n "$(git status --short --untracked-files=no)" ]; then echo "/repo is not clean; refusing"; exit 2; fi
 git apply "$patch" || { echo "PATCH DOES NOT APPLY"; exit 2; }
 cd /verif && VERIF_REPO_LOCKED=1 python3 check.py $id --tier $tier 2>&1 | tail -${4:-8}
 git -C /repo checkout -- .
